@@ -252,7 +252,7 @@ func (g *tmplGen) siblings(n int) []*TNode {
 		case c < 30:
 			out = append(out, g.textNode())
 		case c < 36:
-			out = append(out, &TNode{Kind: "comment", Text: g.r.Pick([]string{" c ", "x", " /* hidden */ ", "/**/", " /* a */ b ", "/* ${s1} */"})})
+			out = append(out, &TNode{Kind: "comment", Text: g.r.Pick([]string{" c ", "x", " /* hidden */ ", "/**/", " /* a */ b ", "/* ${s1} */", "- /* n */ -", "! /* n */", " /* n */ >", "\n/* multi\nline */\n"})})
 		case c < 39:
 			out = append(out, &TNode{Kind: "cdata", Text: "a>b"})
 		case c < 60: // a conditional chain
